@@ -62,85 +62,77 @@ def run(ctx, rep):
         f = st[0]
         T = Terms(f)
         ins = [cs for cs in f.calls() if cs.name == "insert" and "HashSet" in cs.callee]
-        table = {}
+        # which set an insertion updates and on which key: flow-insensitive provenance is enough for identity
+        side_of = {}
+        keyed = {}
         for cs in ins:
             which = None
             for lf in leaves(T.operand(cs.args[0])):
                 if lf[0] == "parampath" and lf[1] == 1:
                     which = lf[3][-1]
             key_t = T.operand(cs.args[1])
-            keyed = any(c[2] == "ihr" for c in calls_in(key_t)) and vcc.param_roots(key_t, fm) == {2}
-            conds_seen = set()
-            for blocks, conds in path_conditions(f):
-                if cs.bb in blocks:
-                    idx = blocks.index(cs.bb)
-                    vs = None
-                    bit = None
-                    for (kind, what, subj, val), blk in zip(conds, range(len(conds))):
-                        pass
-                    # conditions established before reaching the call
-                    pre = []
-                    for c in conds:
-                        pre.append(c)
-                    variants = None
-                    for c in conds:
-                        if c[0] == "enum" and c[1] == "Inner":
-                            variants = c[3] if variants is None else tuple(x for x in variants if x in c[3])
-                        if c[0] == "int":
-                            dt = T.operand(c[1])
-                            if "next" in repr(dt) or "Some" in repr(dt):
-                                bit = c[3]
-                    if variants:
-                        for v in variants:
-                            conds_seen.add((v, bit))
-            table[which] = (conds_seen, keyed, cs)
-        want = {"left": {("AssertL", "0"), ("Case", "0")}, "right": {("AssertR", "else"), ("Case", "else")}}
-        for side in ("left", "right"):
-            if side not in table:
-                rep.violation("C08.tracker", "SetTracker:" + side, "no insertion into the %s set" % side, f.where())
-                continue
-            got, keyed, cs = table[side]
-            got_n = {(v, "0" if b in ("0",) else "1") for v, b in got}
-            want_n = {(v, "0" if b == "0" else "1") for v, b in want[side]}
-            if got_n != want_n:
-                rep.violation("C08.tracker", "SetTracker:" + side, "the %s set is updated under %s, expected %s" % (side, sorted(got_n), sorted(want_n)), cs.where())
-            elif not keyed:
-                rep.violation("C08.tracker", "SetTracker:%s:key" % side, "the %s set is not keyed on the visited node's IHR" % side, cs.where())
+            side_of[cs.bb] = which
+            keyed[which] = any(c[2] == "ihr" for c in calls_in(key_t)) and vcc.param_roots(key_t, fm) == {2}
+        # decision table by abstract evaluation over (combinator of the node) x (first bit of the input frame): independent of
+        # how the function spells the decision (match on a tuple, if-let chains, matches! into booleans, early exits)
+        import absint
+        inner_adt = F.adts.get(vcc.INNER)
+        variants = [v["name"] for v in inner_adt["variants"]] if inner_adt else []
+        if len(variants) != 16:
+            rep.anchor("C08.tracker", "node::Inner has 16 variants")
+
+        def run_case(variant, bit):
+            def call_value(t, env, run):
+                nm = t["f"].get("name")
+                if nm == "inner":
+                    return ("ref", ("enum", vcc.INNER, variant, None))
+                if nm == "next":
+                    return ("enum", "Option", "None", None) if bit is None else ("enum", "Option", "Some", ("bool", bit))
+                if nm in ("deref", "as_ref", "borrow", "clone") and t["args"]:
+                    return run.operand(env, t["args"][0])
+                return None
+
+            def effect(t, env, run):
+                if t["f"].get("name") == "insert":
+                    for bb in range(len(f.blocks)):
+                        if f.blocks[bb]["t"] is t:
+                            return ("insert", side_of.get(bb))
+                return None
+            return absint.evaluate(f, {}, call_value, effect)
+
+        want = {"left": {("AssertL", False), ("Case", False)}, "right": {("AssertR", True), ("Case", True)}}
+        bad = []
+        extra = []
+        for v in variants:
+            for bit in (None, False, True):
+                paths = run_case(v, bit)
+                for effects, normal in paths:
+                    got = sorted(e[1] for e in effects if e[0] == "insert")
+                    forks = [e for e in effects if e[0] in ("?branch", "?")]
+                    exp = sorted(sd for sd, ws in want.items() if (v, bit) in ws)
+                    if got != exp:
+                        if v in ("Case", "AssertL", "AssertR") or exp:
+                            bad.append((v, bit, got, exp, bool(forks)))
+                        elif got:
+                            extra.append((v, bit, got))
+        for sd in ("left", "right"):
+            mine = [x for x in bad if sd in x[2] or sd in x[3]]
+            if sd not in side_of.values():
+                rep.violation("C08.tracker", "SetTracker:" + sd, "no insertion into the %s set" % sd, f.where())
+            elif mine:
+                v, bit, got, exp, forked = mine[0]
+                rep.violation("C08.tracker", "SetTracker:" + sd, "for (%s, first input bit %s) the tracker records %s, expected %s%s"
+                              % (v, bit, got or "nothing", exp or "nothing", " on a path that depends on something other than the combinator and the bit" if forked else ""), f.where())
+            elif not keyed.get(sd):
+                rep.violation("C08.tracker", "SetTracker:%s:key" % sd, "the %s set is not keyed on the visited node's IHR" % sd, f.where())
             else:
-                rep.ok("C08.tracker", "SetTracker " + side, sorted(got_n))
-        # recording is unconditional: the (variant, bit) decision dominates every normal exit (no early return that
-        # skips it), and on the paths to an insertion the only decisions are on the variant and on the bit
-        dec = [cs.bb for cs in f.calls() if cs.name in ("inner", "next")]
-        rets = [b for b in f.rpo() if f.blocks[b]["t"]["k"] == "return"]
-        if len(dec) < 2:
-            rep.anchor("C08.tracker", "SetTracker::visit_node: node.inner() and input.next()")
-        else:
-            # an exit decided on the combinator alone (or on the bit alone) is harmless; one decided before either is not
-            early = [b for b in rets if not any(f.dominates(d, b) for d in dec)]
-            if early:
-                rep.violation("C08.tracker", "SetTracker:early-exit", "visit_node can return without looking at the node's combinator and choice bit: "
-                              "an execution of a case node may go unrecorded (a branch taken on a later visit is then pruned)", f.where())
-            else:
-                rep.ok("C08.tracker", "SetTracker: every exit passes the (combinator, bit) decision", None)
-            extra = []
-            for cs in ins:
-                for blocks, conds in path_conditions(f):
-                    if cs.bb not in blocks:
-                        continue
-                    idx = blocks.index(cs.bb)
-                    k = sum(1 for b in blocks[:idx] if f.blocks[b]["t"]["k"] == "switch" and len(set(f.succ_map()[b])) > 1)
-                    for c in conds[:k]:
-                        if c[0] == "enum" and c[1] in ("Inner", "Option"):
-                            continue
-                        if c[0] == "int":
-                            d = T.operand(c[1])
-                            if any(cc[2] == "next" for cc in calls_in(d)) or "Some" in repr(d)[:200]:
-                                continue
-                        extra.append((cs.name, show(T.operand(c[1])) if c[0] == "int" else c[1]))
-            if extra:
-                rep.violation("C08.tracker", "SetTracker:guard", "an insertion into the branch sets is guarded by something other than the combinator and the choice bit: %s" % sorted(set(map(str, extra)))[:3], f.where())
-            else:
-                rep.ok("C08.tracker", "SetTracker: insertions guarded by combinator and bit only", None)
+                rep.ok("C08.tracker", "SetTracker " + sd, sorted(want[sd]))
+        other = [x for x in bad if not (set(x[2]) | set(x[3])) & {"left", "right"}]
+        if other:
+            rep.violation("C08.tracker", "SetTracker:table", "unexpected record for %s" % (other[0],), f.where())
+        if extra:
+            rep.note("SetTracker also records non-case nodes %s (harmless: only case nodes are queried)" % extra[:2])
+        rep.count("tracker_cases_evaluated", len(variants) * 3)
         # the bit is the first bit of the input iterator
         nx = [cs for cs in f.calls() if cs.name == "next"]
         if len(nx) == 1 and vcc.param_roots(T.operand(nx[0].args[0]), fm) == {3}:
